@@ -379,8 +379,8 @@ class AbstractExcelInPython(ABC):
             return "#NUM!"
         match mode:
             case 'Y':
-                return (date_end - date_start).days // (366 if calendar.isleap(date_start.year) and
-                                                        date_start.month <= 2 else 365)
+                # complete years are complete months divided by twelve
+                return self._datedif(date_start, date_end, 'M') // 12
             case 'M':
                 result = 12 * (date_end.year - date_start.year) + (date_end.month - date_start.month)
                 if date_start.day > date_end.day:
@@ -396,9 +396,8 @@ class AbstractExcelInPython(ABC):
                     return calendar.monthrange(prev_month_date.year, prev_month_date.month)[1] - (
                         date_start.day - date_end.day)
             case 'YM':
-                return (12 if date_start.month > date_end.month and date_end.year > date_start.year else 0) \
-                    + (date_end.month - date_start.month) \
-                    + (-1 if date_start.day > date_end.day else 0)
+                # the complete months beyond the complete years
+                return self._datedif(date_start, date_end, 'M') % 12
             case 'YD':
                 return (date_end - date_start).days % (366 if calendar.isleap(date_start.year) and
                                                        date_start.month <= 2 else 365)
